@@ -15,27 +15,30 @@ import (
 )
 
 type Query struct {
-	Unit     string
-	Name     string // obligation name
-	Group    string
-	Kind     string
-	Pos      string
-	Src      string
-	Script   string
-	Cover    bool     // expected SAT (vacuity guard)
-	GetVals  []string // terms whose values are requested on sat
-	ValNames []string
-	Trivial  bool
+	Unit         string
+	Name         string // obligation name
+	Group        string
+	Kind         string
+	Pos          string
+	Src          string
+	Script       string
+	Cover        bool     // expected SAT (vacuity guard)
+	GetVals      []string // terms whose values are requested on sat
+	ValNames     []string
+	Trivial      bool
+	Instances    int
+	GroundScript string
 }
 
 type QResult struct {
-	Q       *Query
-	Status  string // unsat sat unknown timeout error
-	Solver  string
-	Secs    float64
-	Output  string
-	Values  map[string]string
-	Attempt []string
+	Q         *Query
+	Status    string // unsat sat unknown timeout error
+	Solver    string
+	Secs      float64
+	Output    string
+	Values    map[string]string
+	Attempt   []string
+	Candidate bool // Values come from the ground part only
 }
 
 // buildQueries turns the generated items into one SMT script per obligation.
@@ -47,10 +50,17 @@ func (g *Gen) buildQueries(unit string, getVals, valNames []string) []*Query {
 		head.WriteString(d)
 		head.WriteString("\n")
 	}
+	var ctxSx []*sx
+	addCtx := func(f string) {
+		if strings.Contains(f, "forall") || strings.Contains(f, "select") || strings.Contains(f, "(sat ") {
+			ctxSx = append(ctxSx, parseSexps(f)...)
+		}
+	}
 	for _, d := range g.defs {
 		head.WriteString("(assert ")
 		head.WriteString(d)
 		head.WriteString(")\n")
+		addCtx(d)
 	}
 	if d := g.strLitDistinct(); d != "" {
 		head.WriteString("(assert " + d + ")\n")
@@ -69,11 +79,47 @@ func (g *Gen) buildQueries(unit string, getVals, valNames []string) []*Query {
 				var sb strings.Builder
 				sb.WriteString(prelude)
 				sb.WriteString(ctx.String())
-				sb.WriteString(fmt.Sprintf("(assert %s)\n(assert (not %s))\n(check-sat)\n", it.Guard, it.F))
+				hasQ := strings.Contains(it.F, "forall")
+				if !hasQ {
+					for _, c := range ctxSx {
+						if strings.Contains(c.String(), "forall") {
+							hasQ = true
+							break
+						}
+					}
+				}
+				if hasQ {
+					ip := &instPass{idxSort: g.IS(), bv: !g.intMode, maxTotal: 4000}
+					goal := parseSexps(it.F)[0]
+					guard := parseSexps(it.Guard)[0]
+					decls, extra, neg := ip.run(ctxSx, guard, goal)
+					for _, d := range decls {
+						sb.WriteString(d + "\n")
+					}
+					sb.WriteString(fmt.Sprintf("(assert %s)\n(assert %s)\n", it.Guard, neg.String()))
+					for _, e := range extra {
+						sb.WriteString("(assert " + e.String() + ")\n")
+					}
+					q.Instances = len(extra)
+				} else {
+					sb.WriteString(fmt.Sprintf("(assert %s)\n(assert (not %s))\n", it.Guard, it.F))
+				}
+				sb.WriteString("(check-sat)\n")
 				if len(getVals) > 0 {
 					sb.WriteString("(get-value (" + strings.Join(getVals, " ") + "))\n")
 				}
 				q.Script = sb.String()
+				if hasQ {
+					var gs strings.Builder
+					for _, line := range strings.Split(q.Script, "\n") {
+						if strings.HasPrefix(line, "(assert ") && strings.Contains(line, "(forall ") {
+							continue
+						}
+						gs.WriteString(line)
+						gs.WriteString("\n")
+					}
+					q.GroundScript = gs.String()
+				}
 			}
 			if len(q.Script) > g.vcBytes {
 				g.vcBytes = len(q.Script)
@@ -85,7 +131,9 @@ func (g *Gen) buildQueries(unit string, getVals, valNames []string) []*Query {
 		}
 		// once checked (or assumed) the fact is available to what follows
 		if it.F != "true" {
-			ctx.WriteString(fmt.Sprintf("(assert %s)\n", implies(it.Guard, it.F)))
+			f := implies(it.Guard, it.F)
+			ctx.WriteString(fmt.Sprintf("(assert %s)\n", f))
+			addCtx(f)
 		}
 	}
 	return qs
@@ -158,6 +206,13 @@ func solveOne(dir string, id int, q *Query, timeout int) *QResult {
 	if timeout < fast {
 		fast = timeout
 	}
+	if q.Cover {
+		// vacuity guards only need "not unsat"; satisfiable quantified queries rarely return a model quickly
+		st, out, el := runSolver(context.Background(), solvers[0], dir, id, q.Script, 3)
+		r.Attempt = append(r.Attempt, fmt.Sprintf("%s:%s:%.2fs", solvers[0].name, st, el))
+		r.Status, r.Solver, r.Secs, r.Output = st, solvers[0].name, el, out
+		return r
+	}
 	st, out, el := runSolver(context.Background(), solvers[0], dir, id, q.Script, fast)
 	r.Attempt = append(r.Attempt, fmt.Sprintf("%s:%s:%.2fs", solvers[0].name, st, el))
 	if st == "sat" || st == "unsat" {
@@ -212,6 +267,17 @@ func solveOne(dir string, id int, q *Query, timeout int) *QResult {
 	}
 	if r.Secs == 0 {
 		r.Secs = total
+	}
+	if r.Status != "sat" && r.Status != "unsat" && q.GroundScript != "" {
+		// no verdict on the quantified query: look for a candidate counterexample in its ground part.
+		// Such a model may violate the dropped quantified facts; it is only believed after replay.
+		st, out, el := runSolver(context.Background(), solvers[0], dir, id, q.GroundScript, 5)
+		r.Attempt = append(r.Attempt, fmt.Sprintf("ground-part:%s:%s:%.2fs", solvers[0].name, st, el))
+		if st == "sat" {
+			r.Values = parseValues(out, q)
+			r.Candidate = true
+			r.Output += "\n-- candidate model of the ground part --\n" + out
+		}
 	}
 	return r
 }
